@@ -19,8 +19,51 @@ import tiegen
 # op codes (MemStream.decode_op); 12/13 = Send/Recv with the puppet inside a fresh anyio.CancelScope
 SENDNW, RECVNW, SEND, RECV, CLONE, CLOSE, RESUME, CANCEL, SCANCEL, DELIVER = range(10)
 SEND_SC, RECV_SC = 12, 13
+# harness-only ops (model: no-op): the virtual clock passes every pending deadline (timers become due, NOT run);
+# the due timer callbacks (CancelScope._timeout) run; an outer scope OUTSIDE a shield is cancelled
+ADVANCE, FIRE, OUTER_CANCEL = 10, 11, 14
+# Send / Recv performed inside a cancel-scope STRUCTURE: codes 20+k / 30+k (model: plain Send / Recv)
+SHAPES = {
+    0: "shield",                           # with CancelScope(shield=True): op
+    1: "cancelled>shield",                 # outer scope cancelled before the call, inner shielded
+    2: "expired(fired)>shield",            # outer deadline already passed at entry (cancelled in __enter__), inner shielded
+    3: "deadline>shield",                  # outer deadline in the future at entry; ADVANCE / FIRE come later
+    4: "cancelled>shield>plain",           # nested two deep, shield in the middle
+    5: "cancelled>plain>shield",           # nested two deep, shield innermost
+    6: "plain>plain",                      # two plain scopes; ScopeCancel cancels the OUTER one (effective through the parent)
+    7: "live>shield",                      # outer scope alive at entry; OUTER_CANCEL comes later
+}
+SEND_SHAPE0, RECV_SHAPE0 = 20, 30
+
+
+def is_send_op(c):
+    return c in (SEND, SEND_SC) or 20 <= c < 30
+
+
+def is_recv_op(c):
+    return c in (RECV, RECV_SC) or 30 <= c < 40
+
+
+def is_sendish(c):
+    return c == SENDNW or is_send_op(c)
+
+
+def is_recvish(c):
+    return c == RECVNW or is_recv_op(c)
+
+
+def shape_of(c):
+    return c - 20 if 20 <= c < 30 else (c - 30 if 30 <= c < 40 else None)
+
+
+def opname(c):
+    k = shape_of(c)
+    if k is not None:
+        return ("Send" if c < 30 else "Recv") + "/" + SHAPES.get(k, str(k))
+    return OPN.get(c, str(c))
 OPN = {0: "SendNowait", 1: "RecvNowait", 2: "Send", 3: "Recv", 4: "Clone", 5: "Close", 6: "Resume",
-       7: "Cancel", 8: "ScopeCancel", 9: "Deliver", 12: "Send/scoped", 13: "Recv/scoped"}
+       7: "Cancel", 8: "ScopeCancel", 9: "Deliver", 12: "Send/scoped", 13: "Recv/scoped",
+       10: "AdvanceClock", 11: "FireTimers", 14: "OuterCancel"}
 # result codes (MemStream.res_code)
 DONE, BLOCKED, CANCELLED, WOULDBLOCK, CLOSED, BROKEN, EOS, ITEM, HANDLE, REJECTED, NONE = range(11)
 RESN = {0: "Done", 1: "Blocked", 2: "Cancelled", 3: "WouldBlock", 4: "Closed", 5: "Broken", 6: "EndOfStream",
@@ -34,10 +77,10 @@ def readable(ops):
     out = []
     for i in range(0, len(ops), 4):
         c, a, b, d = ops[i:i + 4]
-        n = OPN.get(c, str(c))
-        if c in (SENDNW, SEND, SEND_SC):
+        n = opname(c)
+        if is_sendish(c):
             out.append(f"{n}(t{a},h{b},x{d})")
-        elif c in (RECVNW, RECV, RECV_SC):
+        elif is_recvish(c):
             out.append(f"{n}(t{a},h{b})")
         elif c in (CLONE, CLOSE):
             out.append(f"{n}(h{b})")
@@ -76,6 +119,11 @@ class MSRun:
         self.m_loss_budget = 0                 # native Task.cancel() on a receiver in its hand-over cycle
         self.steps = 0
         self.infeasible = 0
+        self.m_rq: list[int] = []   # receiver tasks in the order they started waiting (monitor's FIFO bookkeeping)
+        self.shapes = False   # offer the scope-structure ops in enabled()
+        self.tinfo = {}
+        import importlib
+        self.ti_cls = importlib.import_module("anyio._backends._asyncio").AsyncIOTaskInfo
         self.crash = None
         self._served: list = []
 
@@ -139,9 +187,16 @@ class MSRun:
             if p.at_decision:
                 for h in sends:
                     en += [(SENDNW, t, h), (SEND, t, h), (SEND_SC, t, h)]
+                    if self.shapes:
+                        en += [(SEND_SHAPE0 + k, t, h) for k in SHAPES]
                 for h in recvs:
                     en += [(RECVNW, t, h), (RECV, t, h), (RECV_SC, t, h)]
+                    if self.shapes:
+                        en += [(RECV_SHAPE0 + k, t, h) for k in SHAPES]
             else:
+                if self.shapes and self.cur[t] and self.cur[t].get("outer") is not None \
+                        and not self.cur[t]["outer"].cancel_called:
+                    en.append((OUTER_CANCEL, t, 0))
                 if self.world.runnable(p):
                     en.append((RESUME, t, 0))
                 en.append((CANCEL, t, 0))
@@ -150,15 +205,74 @@ class MSRun:
                     en.append((SCANCEL, t, 0))
                     if self.deliver_handle(t) is not None:
                         en.append((DELIVER, t, 0))
+        if self.shapes:
+            if self.world.loop.live_timers():
+                en.append((ADVANCE, 0, 0))
+            if any(getattr(hd._callback, "__name__", "") == "_timeout" for hd in self.world.loop.ready_handles()):
+                en.append((FIRE, 0, 0))
         for h in self.handles:
             en.append((CLOSE, 0, h))
             if len([x for x in self.handles if self.side(x) == self.side(h)]) < 4:
                 en.append((CLONE, 0, h))
         return en
 
-    def _blocking_cmd(self, t, fn, scoped):
+    def _blocking_cmd(self, t, fn, scoped, shape=None):
         anyio = self.anyio
         info = self.cur[t]
+        CS = anyio.CancelScope
+
+        def tidy():
+            task = asyncio.current_task()
+            while task.cancelling():
+                task.uncancel()
+
+        if shape is not None:
+            # the call runs inside a cancel-scope structure; no await between the scope entries/exits and the call
+            async def cmd(p):
+                now = asyncio.get_running_loop().time()
+                try:
+                    if shape == 0:
+                        with CS(shield=True):
+                            return await fn()
+                    elif shape == 1:
+                        with CS() as outer:
+                            outer.cancel()
+                            with CS(shield=True):
+                                return await fn()
+                    elif shape == 2:
+                        with CS(deadline=now - 1.0):
+                            with CS(shield=True):
+                                return await fn()
+                    elif shape == 3:
+                        with CS(deadline=now + 1.0):
+                            with CS(shield=True):
+                                return await fn()
+                    elif shape == 4:
+                        with CS() as outer:
+                            outer.cancel()
+                            with CS(shield=True):
+                                with CS():
+                                    return await fn()
+                    elif shape == 5:
+                        with CS() as outer:
+                            outer.cancel()
+                            with CS():
+                                with CS(shield=True):
+                                    return await fn()
+                    elif shape == 6:
+                        with CS() as outer:
+                            info["scope"] = outer
+                            with CS():
+                                return await fn()
+                        return _SWALLOWED
+                    else:
+                        with CS() as outer:
+                            info["outer"] = outer
+                            with CS(shield=True):
+                                return await fn()
+                finally:
+                    tidy()
+            return cmd
 
         if not scoped:
             async def cmd(p):
@@ -166,16 +280,14 @@ class MSRun:
             return cmd
 
         async def cmd(p):
-            sc = anyio.CancelScope()
+            sc = CS()
             info["scope"] = sc
             try:
                 with sc:
                     return await fn()
                 return _SWALLOWED
             finally:
-                task = asyncio.current_task()
-                while task.cancelling():
-                    task.uncancel()
+                tidy()
         return cmd
 
     def feasible(self, c, a, b):
@@ -184,11 +296,13 @@ class MSRun:
         w = self.world
         if c in (CLONE, CLOSE):
             return b in self.handles
+        if c in (ADVANCE, FIRE):
+            return True
         p = w.puppets.get(a)
         if p is None:
             return False
-        if c in (SENDNW, RECVNW, SEND, SEND_SC, RECV, RECV_SC):
-            want = "send" if c in (SENDNW, SEND, SEND_SC) else "recv"
+        if is_sendish(c) or is_recvish(c):
+            want = "send" if is_sendish(c) else "recv"
             return p.at_decision and b in self.handles and self.side(b) == want
         if c == RESUME:
             return (not p.at_decision) and w.runnable(p)
@@ -196,6 +310,8 @@ class MSRun:
             return not p.at_decision
         if c == SCANCEL:
             return (not p.at_decision) and bool(self.cur.get(a)) and self.cur[a].get("scope") is not None
+        if c == OUTER_CANCEL:
+            return (not p.at_decision) and bool(self.cur.get(a)) and self.cur[a].get("outer") is not None
         return True
 
     def do(self, c, a, b, d):
@@ -223,14 +339,24 @@ class MSRun:
             async def cmd(p):
                 return hr.receive_nowait()
             out = w.act(a, cmd)
-        elif c in (SEND, SEND_SC):
+        elif is_send_op(c):
             hs = self.handles[b]
-            self.cur[a] = {"kind": "send", "h": b, "x": d, "stage": "ck", "scope": None, "creq": None}
-            out = w.act(a, self._blocking_cmd(a, lambda: hs.send(d), c == SEND_SC))
-        elif c in (RECV, RECV_SC):
+            self.cur[a] = {"kind": "send", "h": b, "x": d, "stage": "ck", "scope": None, "creq": None,
+                           "shape": shape_of(c), "outer": None, "scope_cancelled": False}
+            out = w.act(a, self._blocking_cmd(a, lambda: hs.send(d), c == SEND_SC, shape_of(c)))
+        elif is_recv_op(c):
             hr = self.handles[b]
-            self.cur[a] = {"kind": "recv", "h": b, "x": 0, "stage": "ck", "scope": None, "creq": None}
-            out = w.act(a, self._blocking_cmd(a, lambda: hr.receive(), c == RECV_SC))
+            self.cur[a] = {"kind": "recv", "h": b, "x": 0, "stage": "ck", "scope": None, "creq": None,
+                           "shape": shape_of(c), "outer": None, "scope_cancelled": False}
+            out = w.act(a, self._blocking_cmd(a, lambda: hr.receive(), c == RECV_SC, shape_of(c)))
+        elif c == ADVANCE:
+            w.loop.advance(10.0)
+        elif c == FIRE:
+            for hd in list(w.loop.ready_handles()):
+                if getattr(hd._callback, "__name__", "") == "_timeout":
+                    w.loop.run_handle(hd)
+        elif c == OUTER_CANCEL:
+            self.cur[a]["outer"].cancel()
         elif c == CLONE:
             try:
                 nh = self.handles[b].clone()
@@ -269,7 +395,7 @@ class MSRun:
         self.steps += 1
         self.monitor(c, a, b, d, code, val, before, after, pre)
         # bookkeeping of the puppet's position inside its call
-        if c in (SEND, SEND_SC, RECV, RECV_SC, RESUME):
+        if is_send_op(c) or is_recv_op(c) or c == RESUME:
             info = self.cur[a]
             if code == BLOCKED:
                 if c == RESUME and info is not None:
@@ -332,7 +458,7 @@ class MSRun:
         recv_wake = c == RESUME and info and info["kind"] == "recv" and info["stage"] == "wait"
         h = b if c in (SENDNW, RECVNW, CLONE, CLOSE) else (info["h"] if info else None)
         x = d if c == SENDNW else (info["x"] if info else 0)
-        if c in (SEND, SEND_SC):
+        if is_send_op(c):
             self.m_sent[d] = {"task": a, "state": "ck", "idx": None}
         if c == SENDNW:
             self.m_sent[d] = {"task": a, "state": "ck", "idx": None}
@@ -447,6 +573,7 @@ class MSRun:
 
         # ---- C13: the last send clone closes: remaining items must be handed out before any EndOfStream ------
         if c == CLOSE and open_send == 0 and os0 > 0:
+            self.m_rq = []
             for t in in_recv_wait:
                 self.cur[t]["closed_with"] = (buf0, ws0)
             if wr0 > 0 and (buf0 > 0 or ws0 > 0):
@@ -497,22 +624,31 @@ class MSRun:
                                    for i in self.cur.values()):
                 self.flags.add("send_meets_cancelled_head_and_live_receiver")
             # audit C12 4.3: a receiver popped from waiting_receivers WITHOUT an item must be one whose cancellation
-            # has been delivered, its wake-up must be queued, and it must end with that cancellation
-            popped = max(wr0 - wr1, 0)
-            handed_n = 1 if (code == DONE and buf1 == buf0 and popped >= 1) else 0
-            n_skipped = popped - handed_n
-            if n_skipped > 0:
-                cands = [t for t, i in self.cur.items() if i and i["kind"] == "recv" and i["stage"] == "wait"
-                         and i.get("creq_pending") and not i.get("skipped_at")]
-                if n_skipped > len(cands):
-                    self._viol("C12", f"send dropped {n_skipped} receiver(s) from the waiting queue without an item but only "
-                                      f"{len(cands)} waiting receiver(s) have a delivered cancellation")
-                for t in cands:
-                    self.cur[t]["skipped_at"] = self.steps
-                    if not self.world.runnable(self.world.puppets[t]):
-                        self._viol("C12", f"receiver task {t} was popped from the waiting queue without an item and its "
-                                          f"wake-up is not queued (it would hang)")
+            # has been delivered, its wake-up must be queued, and it must end with that cancellation.  The queue is
+            # FIFO, so the receivers a send pops are the first (tasks_waiting_receive before - after) waiters in the
+            # order they started waiting; the last of them got the item iff the send handed it over.
+            popped_n = max(wr0 - wr1, 0)
+            popped = self.m_rq[:popped_n]
+            self.m_rq = self.m_rq[popped_n:]
+            handed_over = code == DONE and buf1 == buf0 and popped_n >= 1
+            dropped = popped[:-1] if handed_over else popped
+            if handed_over and popped:
+                ti = self.cur.get(popped[-1])
+                if ti and ti.get("creq_pending"):
+                    self._viol("C12", f"item {x} was handed to receiver task {popped[-1]} although its cancellation had already "
+                                      f"been delivered (the item will be lost)")
+            for t in dropped:
+                ti = self.cur.get(t)
+                if not ti:
+                    continue
+                ti["skipped_at"] = self.steps
                 self.flags.add("receiver_skipped_by_send")
+                if not ti.get("creq_pending"):
+                    self._viol("C12", f"send popped receiver task {t} from the waiting queue without giving it an item although "
+                                      f"no cancellation has been delivered to it (a live receiver is lost)")
+                if not self.world.runnable(self.world.puppets[t]):
+                    self._viol("C12", f"receiver task {t} was popped from the waiting queue without an item and its wake-up is "
+                                      f"not queued (it would hang)")
             # receivers whose cancellation is pending must be skipped
             skipped = [t for t, i in self.cur.items() if i and i["kind"] == "recv" and i["stage"] == "wait" and i["creq"]]
             if skipped and wr0 > 0 and code in (DONE, BLOCKED, WOULDBLOCK):
@@ -568,8 +704,11 @@ class MSRun:
                                 break
                         self._served.append((stamp, idx))
                         self.flags.add("blocked_receive_gets_item")
+                        if info.get("shape") in (0, 1, 2, 3, 4, 5, 7):
+                            self.flags.add("shielded_receiver_served")
             self.m_received[val] = a
         if recv_attempt and code == BLOCKED:
+            self.m_rq.append(a)
             info["stamp"] = self.m_blockseq
             self.m_blockseq += 1
             self.flags.add("receiver_blocks")
@@ -580,6 +719,8 @@ class MSRun:
             self._viol("C12", f"receiver task {a} was {what} but its receive ended with {RESN[code]} instead of a cancellation")
         if recv_wake and info.get("skipped_at") and code == CANCELLED:
             self.flags.add("skipped_receiver_ends_cancelled")
+        if recv_wake and a in self.m_rq:
+            self.m_rq.remove(a)
 
         # ---- cancellation requests (what the harness did, for the loss budget and flags) ----
         if c in (CANCEL, SCANCEL) and info:
@@ -603,6 +744,10 @@ class MSRun:
                         self.flags.add("cancel_blocked_sender")
             else:
                 self.flags.add("cancel_in_checkpoint")
+            if c == CANCEL:
+                info["native_cancel"] = True
+            else:
+                info["scope_cancelled"] = True
             if not (runnable_before and c == SCANCEL and info["stage"] == "wait") and not info["creq"]:
                 info["creq"] = kind
                 # delivered while the wait was still pending: the waiter future is cancelled, the call MUST end
@@ -612,6 +757,44 @@ class MSRun:
             self.flags.add("deliver_retry_run")
             if before != after:
                 self._viol("both", "a re-run of _deliver_cancellation changed the stream statistics")
+        if c in (ADVANCE, FIRE, OUTER_CANCEL):
+            self.flags.add({ADVANCE: "clock_passes_deadline", FIRE: "deadline_timer_fires", OUTER_CANCEL: "outer_scope_cancelled_around_shield"}[c])
+            if before != after:
+                self._viol("both", f"{OPN[c]} (cancel-scope activity OUTSIDE a shield) changed the stream statistics")
+
+        if len(self.m_rq) != wr1:
+            self._viol("C12", f"tasks_waiting_receive={wr1} but the history (waiters in FIFO order, pops by sends, removals by "
+                              f"their own resumption, last send close) leaves {len(self.m_rq)} queued receiver(s) {self.m_rq}")
+            self.m_rq = self.m_rq[:wr1] if len(self.m_rq) > wr1 else self.m_rq   # resynchronise
+
+        # ---- the oracle read by send_nowait: has_pending_cancellation() of every task inside a blocking call must be
+        #      exactly "a cancellation has been requested on the task (its waiter future is cancelled / _must_cancel)
+        #      or its cancel scope is effectively cancelled", the latter computed HERE from the scope structure the
+        #      puppet entered (a shield between the task and a cancelled / expired scope means: NOT cancelled)
+        ti_cls = self.ti_cls
+        for t, i in self.cur.items():
+            pp = self.world.puppets[t]
+            if not i or pp.at_decision or pp.finished:
+                continue
+            if t == a and c == RESUME and code != BLOCKED:
+                continue
+            if t not in self.tinfo:
+                self.tinfo[t] = ti_cls(pp.task)
+            observed = bool(self.tinfo[t].has_pending_cancellation())
+            expected = bool(i.get("native_cancel")) or bool(i.get("scope_cancelled"))
+            if observed != expected:
+                shp = SHAPES.get(i.get("shape"), "scoped" if i.get("scope") is not None else "plain")
+                self._viol("C12", f"has_pending_cancellation() of task {t} (inside {i['kind']}, scope structure '{shp}') is "
+                                  f"{observed} but no cancellation can reach it" if observed else
+                                  f"has_pending_cancellation() of task {t} (inside {i['kind']}, scope structure '{shp}') is "
+                                  f"False although a cancellation was requested / its scope is effectively cancelled")
+            sh = i.get("shape")
+            if sh is not None and sh not in (6,) and i["stage"] == "wait" and i["kind"] == "recv":
+                self.flags.add("receiver_blocked_inside_shield")
+                if sh in (1, 4, 5) or (sh == 7 and i["outer"] is not None and i["outer"].cancel_called):
+                    self.flags.add("receiver_blocked_shielded_in_cancelled_scope")
+                if sh == 2 or (sh == 3 and self.world.loop.time() > 5):
+                    self.flags.add("receiver_blocked_shielded_under_expired_deadline")
 
     # ---------------------------------------------------------------- end of case
     def quiesce(self):
@@ -673,7 +856,7 @@ def run_script(maxbuf, ntasks, flat_ops, quiesce=True):
             for i in range(0, len(flat_ops), 4):
                 c, a, b, d = flat_ops[i:i + 4]
                 r.do(c, a, b, d)
-                if c in (SENDNW, SEND, SEND_SC):
+                if is_sendish(c):
                     r.next_item = max(r.next_item, d + 1)
             r.enabled_at_end = r.enabled()
             r.next_item_at_end = r.next_item
@@ -703,6 +886,10 @@ def case_weights(rng: random.Random, profile: str):
     wts[SCANCEL] *= rng.choice([0.3, 1, 2.5])
     wts[RESUME] *= rng.choice([0.4, 1, 1.6])       # low: many tasks stay blocked at the same time
     wts[CLOSE] *= rng.choice([0.3, 1, 1, 2])
+    for k in SHAPES:
+        wts[SEND_SHAPE0 + k] = 0.35
+        wts[RECV_SHAPE0 + k] = 0.9
+    wts[ADVANCE], wts[FIRE], wts[OUTER_CANCEL] = 1.2, 1.5, 1.5
     return wts, rng.choice([0.5, 1, 2])
 
 
@@ -712,26 +899,29 @@ def walk(r: MSRun, rng: random.Random, wts, bias_send, nsteps: int):
         ws = []
         for (c, t, h) in en:
             wgt = wts[c]
-            if c in (SENDNW, SEND, SEND_SC):
+            if is_sendish(c):
                 wgt *= bias_send
-            if c in (SENDNW, SEND, SEND_SC, RECVNW, RECV, RECV_SC, CLONE) and not r.m_handles[h][1]:
+            if (is_sendish(c) or is_recvish(c) or c == CLONE) and not r.m_handles[h][1]:
                 wgt *= 0.12          # operations on closed handles: keep some
             if c == CLOSE and not r.m_handles[h][1]:
                 wgt *= 0.1
             ws.append(wgt)
         c, t, h = rng.choices(en, ws)[0]
         d = 0
-        if c in (SENDNW, SEND, SEND_SC):
+        if is_sendish(c):
             d = r.next_item
             r.next_item += 1
         r.do(c, t, h, d)
 
 
-def random_case(rng: random.Random, nsteps: int, profile: str):
+def random_case(rng: random.Random, nsteps: int, profile: str, shapes: bool = False):
+    """shapes=True: the combined scope+stream family - blocking calls are also made inside cancel-scope structures
+    (SHAPES), the clock is moved past deadlines, timers fire, outer scopes outside a shield get cancelled."""
     maxbuf = rng.choice(BUFSIZES)
     ntasks = rng.choice([2, 3, 3, 4, 5])
     wts, bias_send = case_weights(rng, profile)
     r = new_run(maxbuf, ntasks)
+    r.shapes = shapes
     r.prefix_len = 0
     try:
         with r:
@@ -763,7 +953,7 @@ def directed_case(rng: random.Random, profile: str):
                 sender = idle[-1]
                 recvs = idle[:-1][:rng.choice([2, 2, 3])]
                 for t in recvs:
-                    r.do(rng.choice([RECV, RECV_SC]), t, rng.choice(rh), 0)
+                    r.do(rng.choice([RECV, RECV_SC, RECV_SC] + [RECV_SHAPE0 + k for k in SHAPES]), t, rng.choice(rh), 0)
                 for t in recvs:
                     if r.world.runnable(r.world.puppets[t]):
                         r.do(RESUME, t, 0, 0)
@@ -874,6 +1064,19 @@ def scenario_cases():
                      RECVNW, 2, 1, 0]))
     # blocked sender's handle closed under it: its item is still delivered, then EndOfStream
     S.append((0, 2, [SEND, 1, 0, 1, RESUME, 1, 0, 0, CLOSE, 0, 0, 0, RECVNW, 2, 1, 0, RECVNW, 2, 1, 0, RESUME, 1, 0, 0]))
+    # combined scope + stream: a receiver blocked inside a shield under an expired / cancelled outer scope is LIVE: it is
+    # first in line and must get the first item (second receiver plain)
+    for k in (2, 1, 4, 5):
+        S.append((1, 3, [RECV_SHAPE0 + k, 1, 1, 0, RESUME, 1, 0, 0, RECV, 2, 1, 0, RESUME, 2, 0, 0, SENDNW, 3, 0, 1,
+                         SENDNW, 3, 0, 2, RESUME, 1, 0, 0, RESUME, 2, 0, 0]))
+    # deadline passes while blocked inside the shield: timer not fired yet / fired
+    S.append((0, 2, [RECV_SHAPE0 + 3, 1, 1, 0, RESUME, 1, 0, 0, ADVANCE, 0, 0, 0, SENDNW, 2, 0, 1, RESUME, 1, 0, 0]))
+    S.append((0, 2, [RECV_SHAPE0 + 3, 1, 1, 0, RESUME, 1, 0, 0, ADVANCE, 0, 0, 0, FIRE, 0, 0, 0, SENDNW, 2, 0, 1, RESUME, 1, 0, 0]))
+    # outer scope cancelled around a shielded blocked receiver; a blocked sender inside a shield under an expired deadline
+    S.append((0, 2, [RECV_SHAPE0 + 7, 1, 1, 0, RESUME, 1, 0, 0, OUTER_CANCEL, 1, 0, 0, SENDNW, 2, 0, 1, RESUME, 1, 0, 0]))
+    S.append((0, 2, [SEND_SHAPE0 + 2, 1, 0, 1, RESUME, 1, 0, 0, RECVNW, 2, 1, 0, RESUME, 1, 0, 0]))
+    # effectively cancelled through the PARENT scope: equivalent to ScopeCancel
+    S.append((0, 2, [RECV_SHAPE0 + 6, 1, 1, 0, RESUME, 1, 0, 0, SCANCEL, 1, 0, 0, SENDNW, 2, 0, 1, RESUME, 1, 0, 0]))
     # O-own-close (recorded decision): a receiver blocked on a handle that someone else closes stays blocked while the
     # send side is open, every send is refused, the close of the send side releases it with EndOfStream
     S.append((0, 2, [RECV, 1, 1, 0, RESUME, 1, 0, 0, CLOSE, 0, 1, 0, SENDNW, 2, 0, 1, CLOSE, 0, 0, 0, RESUME, 1, 0, 0]))
@@ -896,7 +1099,10 @@ NEED_FLAGS = {
             "interrupted_send_item_delivered", "cancel_sender_after_wakeup", "cancel_in_checkpoint",
             "deliver_retry_run", "item_lost_by_native_cancel_documented_scope",
             "two_or_more_blocked_receivers", "send_meets_cancelled_head_and_live_receiver",
-            "receiver_skipped_by_send", "skipped_receiver_ends_cancelled"],
+            "receiver_skipped_by_send", "skipped_receiver_ends_cancelled", "receiver_blocked_inside_shield",
+            "receiver_blocked_shielded_in_cancelled_scope", "receiver_blocked_shielded_under_expired_deadline",
+            "shielded_receiver_served", "clock_passes_deadline", "deadline_timer_fires",
+            "outer_scope_cancelled_around_shield"],
     "C13": ["clone", "double_close", "eos", "broken", "eos_wakes_blocked_receiver", "broken_wakes_blocked_sender",
             "last_send_close_with_blocked_receivers", "last_recv_close_with_blocked_senders",
             "receive_side_closed_with_buffered_items", "items_stay_in_buffer_after_receive_side_closed",
@@ -1083,10 +1289,14 @@ def check(prop: str, tier: str) -> int:
     n_scen = len(runs) - n_corpus
     n_random = 500 if tier == "quick" else 9000
     n_directed = 0
+    n_shapes = 0
     for i in range(n_random):
         if i % 5 == 0:
             runs.append(directed_case(rng, prop))
             n_directed += 1
+        elif i % 5 == 2:
+            runs.append(random_case(rng, rng.choice([8, 12, 18, 26, 40]), prop, shapes=True))
+            n_shapes += 1
         else:
             runs.append(random_case(rng, rng.choice([8, 12, 18, 26, 40, 60]), prop))
     # exhaustive small scope
@@ -1197,7 +1407,7 @@ def check(prop: str, tier: str) -> int:
     bufcount = {}
     for r in runs:
         for i in range(0, len(r.ops), 4):
-            opcount[OPN[r.ops[i]]] = opcount.get(OPN[r.ops[i]], 0) + 1
+            opcount[opname(r.ops[i])] = opcount.get(opname(r.ops[i]), 0) + 1
         k = "inf" if r.maxbuf == math.inf else str(r.maxbuf)
         bufcount[k] = bufcount.get(k, 0) + 1
     rescount = {}
@@ -1217,7 +1427,11 @@ def check(prop: str, tier: str) -> int:
                 "receive_nowait on any clone incl. closed ones, with or without an enclosing CancelScope; blocked task: "
                 "resume if its wake-up is queued, native Task.cancel(), cancel() of its CancelScope, re-run of "
                 "_deliver_cancellation; clone/close of any handle), buffer sizes 0,1,2,3,inf, 2-5 tasks, up to 4 "
-                "clones per side, then quiescence + drain; plus a directed family (every 5th case: >= 2 receivers "
+                "clones per side, then quiescence + drain; plus the combined scope+stream family (every 5th case: blocking calls "
+                "inside cancel-scope structures - shielded, shielded inside a cancelled / expired-deadline / live outer "
+                "scope, nested two deep, plain inside plain - with the virtual clock moved past deadlines, timers fired "
+                "or not, outer scopes cancelled; has_pending_cancellation() of every waiter compared with the value "
+                "computed from the structure) and a directed family (every 5th case: >= 2 receivers "
                 "blocked, head one(s) cancelled natively or through their CancelScope and not yet resumed, sends in "
                 "the same cycle, optionally all send clones closed, random resume order), hand-written corner "
                 "scenarios and exhaustive enumeration of all enabled sequences over a restricted alphabet to a fixed depth; profile "
@@ -1225,6 +1439,7 @@ def check(prop: str, tier: str) -> int:
         "exhaustive_small_scope_cases": n_ex,
         "exhaustive_scopes_(maxbuf,tasks,depth)": scopes,
         "scenario_cases": n_scen,
+        "scope_structure_cases_(calls_inside_shield/cancelled/expired/nested_scopes,_clock,_timers)": n_shapes,
         "directed_cases_(>=2_blocked_receivers,_head_cancelled,_send_in_the_same_cycle)": n_directed,
         "corpus_cases": n_corpus,
         "reached": flags,
